@@ -535,6 +535,8 @@ class Component(CaselessDict):
         return f"{self.name or type(self).__name__}({dict(self)}{', ' + subs if subs else ''})"
 
     def __eq__(self, other):
+        if not isinstance(other, Component):
+            return False
         if len(self.subcomponents) != len(other.subcomponents):
             return False
 
